@@ -239,6 +239,9 @@ func bubble(c *explore.Ctx, depth int) (out outcome) {
 
 func TestCheck(t *testing.T) {
 	r := vf.Start("C08", "model_checking")
+	if r.RunShards(16) { // bubble-heavy: one process per shard of the exploration
+		return
+	}
 	depth := vf.Pick(r, 6, 8)
 	budgets := map[string]int{"outage": 3}
 	r.Assume = []string{
